@@ -439,7 +439,10 @@ type workerResult struct {
 
 func runWorker(bin string, env []string, outDir string, idx int) *workerResult {
 	cmd := exec.Command(bin, "-test.run", "^TestScenario$", "-test.timeout", "0", "-test.count", "1")
-	cmd.Env = append(append([]string{}, env...), fmt.Sprintf("VERIF_WORKER=%d", idx), "VERIF_OUT="+outDir, "GOMAXPROCS=2", "GORACE=halt_on_error=1 exitcode=66")
+	cmd.Env = append(append([]string{}, env...), fmt.Sprintf("VERIF_WORKER=%d", idx), "VERIF_OUT="+outDir, "GOMAXPROCS=2", "GORACE=halt_on_error=1 exitcode=66",
+		// the scenarios allocate heavily (world builds, observation dumps) on
+		// tiny heaps: a third of the time went into collection at GOGC=100
+		"GOGC="+envStr("VERIF_GOGC", "400"))
 	cmd.Dir = outDir
 	var so, se bytes.Buffer
 	cmd.Stdout = &so
@@ -606,6 +609,13 @@ func tierFor(name string) tierCfg {
 	}
 	trouble("unknown tier %q", name)
 	return tierCfg{}
+}
+
+func envStr(name, def string) string {
+	if v := os.Getenv(name); v != "" {
+		return v
+	}
+	return def
 }
 
 func envInt(name string, def int) int {
